@@ -5,6 +5,7 @@
 
 #include <etl/_concepts/integral.hpp>
 #include <etl/_concepts/same_as.hpp>
+#include <etl/_contracts/check.hpp>
 #include <etl/_cstddef/size_t.hpp>
 #include <etl/_strings/to_integer.hpp>
 #include <etl/_system_error/errc.hpp>
@@ -32,6 +33,8 @@ template <integral Int>
 [[nodiscard]] constexpr auto from_chars(char const* first, char const* last, Int& value, int base = 10)
     -> from_chars_result
 {
+    TETL_PRECONDITION(base >= 2 and base <= 36);
+
     constexpr auto options     = strings::to_integer_options{.skip_whitespace = false, .check_overflow = true};
     auto const [end, err, val] = strings::to_integer<Int, options>({first, last}, static_cast<Int>(base));
 
